@@ -16,7 +16,11 @@ RULE = ("Hypothesis-generated prefix histories (<=8 ops: valid plain sets, links
         "of every object by identity, per-(object, parameter) watcher counts, the linked names and their reference objects) is "
         "equal before and after, the universal event log gained nothing, and a behavioural probe (every source bumped to a fresh "
         "valid value) shows the target following exactly the links it had. Non-trivial = the rejected attempt happens while the "
-        "target has >=1 live link; distinct = case hash.")
+        "target has >=1 live link; distinct = case hash. A sixth of the cases use a second world instead: Dynamic numeric "
+        "parameters holding shared number generators under a time-dependent clock, with a rejected (constant / read-only / "
+        "out-of-bounds) assignment of a generator or plain value; oracle = what every parameter yields at the unchanged time, "
+        "the stored generators and the event log are the same before and after (non-trivial there = the rejected generator "
+        "is also the live value of another parameter).")
 ASSUMPTIONS = [
     "only attempts the spec rejects are generated (whether a value is rejected is C01's subject)",
     "multi-key update() is excluded: C05 requires the keys applied before a rejected one to be announced",
@@ -59,8 +63,109 @@ def _case(draw):
             "in_batch": draw(st.sampled_from([False, False, True]))}
 
 
+@st.composite
+def _dyn_case(draw):
+    """Dynamic (callable-valued) numeric parameters under a time-dependent clock: generators shared between parameters."""
+    op = st.one_of(
+        st.tuples(st.just("setgen"), st.sampled_from(["a", "b"]), st.integers(0, 1)),
+        st.tuples(st.just("setgen"), st.sampled_from(["a", "b"]), st.integers(0, 1)),
+        st.tuples(st.just("setplain"), st.sampled_from(["a", "b", "bd"]), st.integers(0, 1)),
+        st.tuples(st.just("tick"), st.integers(1, 3)),
+        st.tuples(st.just("read"), st.sampled_from(["a", "b"])),
+    ).map(list)
+    return {"scenario": "dynamic", "prefix": draw(st.lists(op, min_size=1, max_size=6)),
+            "attempt": [draw(st.sampled_from(["cst", "ro", "ro", "bd", "cst"])), draw(st.sampled_from(["gen0", "gen1", "gen0", "plain"])),
+                        draw(st.sampled_from(["attr", "update", "class"]))],
+            "gen_kind": draw(st.sampled_from(["counter", "ng"]))}
+
+
 def strategy(tier):
-    return _case()
+    return st.one_of(_case(), _case(), _case(), _case(), _case(), _dyn_case())
+
+
+class _Counter:
+    """deterministic number generator 1, 2, 3, ... (a callable that accepts attributes, as Dynamic requires)"""
+
+    def __init__(self):
+        self.n = 0
+
+    def __call__(self):
+        self.n += 1
+        return self.n
+
+
+def _execute_dynamic(case):
+    import numbergen as ng
+    res = Result()
+    tf = param.Dynamic.time_fn
+    param.Dynamic.time_dependent = True
+    tf(0, time_type=int)
+    try:
+        D = type("D", (param.Parameterized,), {
+            "a": param.Number(default=0), "b": param.Number(default=0), "bd": param.Number(default=0, bounds=(0, 1)),
+            "cst": param.Number(default=0.5, constant=True), "ro": param.Number(default=0.25, readonly=True)})
+        gens = [_Counter(), _Counter()] if case["gen_kind"] == "counter" else [ng.UniformRandom(seed=11), ng.UniformRandom(seed=12)]
+        o = D()
+        log = []
+        o.param.watch(lambda *evs: log.append([(e.name, e.type) for e in evs]), list(D.param), onlychanged=False)
+        holders = {}
+        for op in case["prefix"]:
+            if op[0] == "setgen":
+                setattr(o, op[1], gens[op[2]])
+                holders[op[1]] = op[2]
+            elif op[0] == "setplain":
+                setattr(o, op[1], op[2])
+                holders.pop(op[1], None)
+            elif op[0] == "tick":
+                tf(tf() + op[1])
+            else:
+                getattr(o, op[1])
+        tgt, vk, route = case["attempt"]
+        if tgt == "bd":
+            value = 7 if vk == "plain" else None
+            if value is None:
+                vk, value = "plain", -3
+        else:
+            value = 99 if vk == "plain" else gens[int(vk[-1])]
+        if route == "class" and tgt != "ro":
+            route = "attr"           # constants (and bounded parameters, validly) are assignable on the class
+        shared = vk != "plain" and int(vk[-1]) in holders.values()
+        res.label("scenario:dynamic", "attempt:" + tgt, "route:" + route,
+                  "generator_shared_with_live_parameter" if shared else "fresh_or_plain_value")
+
+        def snap():
+            return ([(pn, getattr(o, pn)) for pn in ("a", "b", "bd", "cst", "ro")],
+                    [(pn, id(o.param.get_value_generator(pn))) for pn in ("a", "b", "bd", "cst", "ro")],
+                    [(pn, o.param.inspect_value(pn)) for pn in ("a", "b")],
+                    [(pn, id(getattr(D.param[pn], "default"))) for pn in ("a", "b", "bd", "cst", "ro")])
+        before = snap()
+        if snap() != before:
+            res.dontcare += 1
+            return res
+        nlog = len(log)
+        try:
+            if route == "attr":
+                setattr(o, tgt, value)
+            elif route == "update":
+                o.param.update(**{tgt: value})
+            else:
+                setattr(D, tgt, value)
+        except (ValueError, TypeError):
+            pass
+        else:
+            res.fail("C02.attempt_not_rejected", f"dynamic scenario {case['attempt']!r} via {route}: expected a rejection")
+            return res
+        after = snap()
+        if log[nlog:]:
+            res.fail("C02.watcher_invoked", f"dynamic scenario {case['attempt']!r} via {route}: watchers invoked {log[nlog:]!r}")
+        if after != before:
+            res.fail("C02.value_changed", f"dynamic scenario: after prefix {case['prefix']!r} the rejected assignment of {vk} to {tgt} via "
+                                          f"{route} changed what the parameters yield at an unchanged time: {before[0]!r} -> {after[0]!r}")
+        res.nontrivial = shared
+        return res
+    finally:
+        param.Dynamic.time_dependent = False
+        tf(0, time_type=int)
 
 
 def _plain(n, k):
@@ -68,6 +173,8 @@ def _plain(n, k):
 
 
 def execute(case):
+    if case.get("scenario") == "dynamic":
+        return _execute_dynamic(case)
     res = Result()
     S, T = rw.make_classes()
     srcs = [S(), S()]
